@@ -135,11 +135,15 @@ def mutator_task(m, present):
 
     def run(interp, c):
         net, K = new_network(interp)
-        props = cached_props(K)
-        c.oblige("post", "the cached lookups of Network are the eleven documented ones", T.const(sorted(props) == sorted(CACHED)), assume_after=False)
+        props = cached_props(K)  # whatever cached lookups the class has now (eleven on the pinned tree)
+        missing = [p for p in present if p not in props]
+        c.oblige("post", f"the lookups {missing} are still offered (as cached properties)", T.const(not missing), assume_after=False)
         deps = {p: deps_of(interp, K, p)[0] for p in props}
         graph = net.attrs["_graph"]
-        for p in present:
+        held = [p for p in present if p in props]
+        if set(present) >= set(CACHED):  # "everything cached": includes lookups added since
+            held += [p for p in props if p not in held]
+        for p in held:
             net.attrs[props[p].attrname] = Token(p)
         fn, _ = K.lookup(m)
         inner = fn.wrapped if isinstance(fn, FuncValue) and fn.wrapped is not None else fn
